@@ -21,7 +21,12 @@ for d in sorted(glob.glob('/verif/seeded/*')):
             break
     need=(m.get('needs_to_manifest') or '').strip().split('\n')
     needs=' '.join(x.strip() for x in need[:2])[:170]
-    rows.append('| %s | %s | %s | %s | %s |'%(os.path.basename(d),pid,'caught' if det.get('detected') else 'NOT caught',how or '-',needs.replace('|','/')))
+    status='caught' if det.get('detected') else 'NOT caught'
+    if not det.get('detected') and os.path.isdir(d+'r'):
+        status='superseded by %sr (patch no longer applies to the repaired tree)'%os.path.basename(d)
+    elif not det.get('detected') and m.get('note'):
+        status='neutralised by a fix (see meta.json)'
+    rows.append('| %s | %s | %s | %s | %s |'%(os.path.basename(d),pid,status,how or '-',needs.replace('|','/')))
 t='| seed | property | ./check | first failing obligation / replayed case | what the change is |\n|---|---|---|---|---|\n'+'\n'.join(rows)
 s=open('/verif/DESIGN.md').read()
 if 'SEEDTABLE' in s:
